@@ -133,6 +133,29 @@ fn enumerate_write_faults(
     }
     let reference = healthy.data.clone();
     let _ref_post = post(&reference).map_err(|e| Violation::new("healthy-write-succeeds", format!("c34:{}:healthy-invalid", who), e))?;
+    // the writer's flush fails while every write is accepted: an operation that flushed the writer was told
+    // about a failure and must pass it on, whatever the sink holds
+    {
+        let mut sink = SimSink::new(
+            env,
+            SinkCfg {
+                flush_fault: Some(ErrorKind::Other),
+                ..Default::default()
+            },
+        );
+        let r = op(&mut sink);
+        if sink.flushes > 0 {
+            env.probe("flush-failure-injected");
+            check!(
+                r.is_err(),
+                "failure-reported",
+                format!("c34:{}:flush-failure-swallowed", who),
+                "the writer's flush() failed ({} call(s)) but the operation returned Ok [{}]",
+                sink.flushes,
+                who
+            );
+        }
+    }
     let (kind, persistent, kname) = gen_fault_kind(w);
     let pos = positions(w, env, reference.len());
     env.ev("workload", reference.len() as u64, pos.len() as u64);
